@@ -29,6 +29,10 @@ theorem wrap_content (w : Nat) (hw : 1 ≤ w) (text : Str) :
     nonblank (wrap w text).flatten = nonblank text :=
   Clikit.Wrap.wrap_content w hw text
 
+/-- `wrap` returns no empty line -/
+theorem wrap_nonempty_lines (w : Nat) (text : Str) : ∀ l ∈ wrap w text, l ≠ [] :=
+  Clikit.Wrap.wrap_nonempty_lines w text
+
 /-! ### the width distribution (`CellWrapper.fit`), for every `share` -/
 
 /-- with at least one character per column the cell wrapper does not raise -/
@@ -140,6 +144,56 @@ theorem within_terminal (share : Nat → Nat → Nat → Nat) (st : TableStyle) 
     have := finish_length _ raw (hall raw hmem) l hfin
     omega
 
+/-- for styles whose right border is not blank (ascii, solid) the trailing-blank strip removes
+nothing: all rendered lines have exactly the same width -/
+theorem rect_equal (share : Nat → Nat → Nat → Nat) (st : TableStyle) (given : List Nat) (t : Table)
+    (width indent : Nat) (hf : feasible st t width indent)
+    (hst : styleOk st t.header.isSome = true) (hsolid : rightSolid st = true) (hn : 1 ≤ t.n)
+    (lines : List Str) (hr : render share st given t width indent = .ok lines) :
+    ∃ outs, layout share st t width indent = .ok outs ∧ tableWidth st indent outs ≤ width ∧
+      ∀ l ∈ lines, l.length = tableWidth st indent outs := by
+  unfold render at hr
+  cases hraw : renderRaw share st given t width indent with
+  | error e => rw [hraw] at hr; cases hr
+  | ok raws =>
+    rw [hraw] at hr
+    cases hr
+    obtain ⟨outs, h1, hW, hall⟩ := rect share st given t width indent hf hst raws hraw
+    refine ⟨outs, h1, hW, ?_⟩
+    obtain ⟨outs', h1', h2, _, _, hok⟩ := layout_spec share st t width indent hf
+    rw [h1] at h1'; cases h1'
+    have hne : outs ≠ [] := by intro h; rw [h] at h2; simp at h2; omega
+    have hpad : st.padding_char.length = 1 := by
+      unfold styleOk at hst
+      simp only [Bool.and_eq_true, beq_iff_eq] at hst
+      exact hst.1.1.1.1.1
+    -- every raw line comes from `renderRowsRaw`
+    have hsol : ∀ raw ∈ raws, rstrip raw.2 = raw.2 ∧ raw.2 ≠ [] := by
+      unfold renderRaw at hraw
+      split at hraw
+      · cases hraw; intro raw h; simp at h
+      · simp only [h1, bind, Except.bind] at hraw
+        cases ha : alignmentsOf outs.length given with
+        | error e => rw [ha] at hraw; cases hraw
+        | ok aligns =>
+          rw [ha] at hraw
+          cases hraw
+          exact renderRowsRaw_solid st _ hpad hsolid outs hne hok aligns _ indent
+    intro l hl
+    obtain ⟨raw, hmem, hfin⟩ := List.mem_filterMap.mp hl
+    obtain ⟨hs1, hs2⟩ := hsol raw hmem
+    unfold finish at hfin
+    simp only [hs1] at hfin
+    have hemp : raw.2.isEmpty = false := by
+      cases hraw2 : raw.2 with
+      | nil => exact absurd hraw2 hs2
+      | cons c r => rfl
+    simp only [hemp, Bool.and_false, Bool.false_eq_true, if_false, Option.some.injEq] at hfin
+    subst hfin
+    rcases hall raw hmem with h | h
+    · exact h
+    · rw [hs1] at h; exact absurd h.2 hs2
+
 /-- reading the lines of cell `(i, j)` from top to bottom gives back the cell's characters
 in order, spacing aside (`splitLines (cells.getD i _).text` are exactly the lines `draw_row`
 prints for that cell) -/
@@ -169,6 +223,13 @@ theorem styles_ok : ∀ p ∈ Clikit.Gen.C14.styles, ∀ h : Bool, styleOk p.2 h
 theorem styles_ok_headerless_override :
     styleOk { Clikit.Gen.C14.ascii with header_cell_format := ([], []) } false = true ∧
     styleOk { Clikit.Gen.C14.solid with header_cell_format := ([], []) } false = true := by
+  decide
+
+/-- ascii and solid have a non-blank right border (so `rect_equal` applies); borderless and
+compact do not (their lines differ in trailing blanks, as the statement allows) -/
+theorem right_border_solid :
+    rightSolid Clikit.Gen.C14.ascii = true ∧ rightSolid Clikit.Gen.C14.solid = true ∧
+    rightSolid Clikit.Gen.C14.borderless = false ∧ rightSolid Clikit.Gen.C14.compact = false := by
   decide
 
 /-! ### non-vacuity -/
